@@ -391,24 +391,39 @@ def r_bisect(db, rep):
             cond = strip(lp["cond"])
             closed = cond["op"] == "<="
             rep.visit(f)
-            rep.inst(f.nloc(lp), "%s: %s-boundary search over %s%s, %s%s" % (f.qn, "left" if closed else "right", "[" if closed else "(",
-                                                                             canon(sb.sym(ia)), canon(sb.sym(ib)), "]" if closed else ")"))
             sym_m = ("local", m[1])
+            ga, gb = canon(sb.sym(ia)), canon(sb.sym(ib))
+            okR = {symR} | ({canon(sb.sym(initR))} if initR is not None else set())
+            okLm1 = {canon(mk_op("-", sb.sym(mc["lhs"]), C(1)))} | ({canon(mk_op("-", sb.sym(initL), C(1)))} if initL is not None else set())
+            cm1, cp1 = canon(mk_op("-", symc, C(1))), canon(mk_op("+", symc, C(1)))
+            # which side of the pivot does this loop search?  (decided by the end that touches the pivot)
             if closed:
-                want = [("lower bound", ia, okL, "L (the main search's lower bound)"),
-                        ("upper bound", ib, {canon(mk_op("-", symc, C(1)))}, "pivot - 1")]
                 steps = {a: canon(mk_op("+", sym_m, C(1))), b: canon(mk_op("-", sym_m, C(1)))}
+                if gb == cm1:
+                    side, bad = "left", (None if ga in okL else ("lower bound", ga, "L (the main search's lower bound)"))
+                elif ga == cp1:
+                    side, bad = "right", (None if gb in okR else ("upper bound", gb, "R (the main search's upper bound)"))
+                else:
+                    side, bad = "?", ("pivot end", "[%s, %s]" % (ga, gb), "pivot - 1 (left search) or pivot + 1 (right search)")
             else:
-                want = [("lower bound", ia, {canon(symc)}, "the pivot"),
-                        ("exclusive upper sentinel", ib, okR1, "R + 1 (one past the main search's upper bound)")]
                 steps = {a: canon(sym_m), b: canon(sym_m)}
-            for what, init, ok, descr in want:
-                rep.ob()
-                got = canon(sb.sym(init))
-                if got not in ok:
-                    rep.viol("%s#%s-%s" % (f.qn, "left" if closed else "right", what.split()[-2] if what.startswith("excl") else what.split()[0]), f.nloc(lp),
-                             "%s: the %s of the %s-boundary search starts at %s, not at %s: elements between the two are never examined, so the reported "
-                             "range loses members at its %s end" % (f.qn, what, "left" if closed else "right", got, descr, "left" if closed else "right"), f.qn)
+                if ga == canon(symc):
+                    side, bad = "right", (None if gb in okR1 else ("exclusive upper sentinel", gb, "R + 1 (one past the main search's upper bound)"))
+                elif gb == canon(symc):
+                    side, bad = "left", (None if ga in okLm1 else ("exclusive lower sentinel", ga, "L - 1 (one before the main search's lower bound)"))
+                else:
+                    side, bad = "?", ("pivot end", "(%s, %s)" % (ga, gb), "the pivot")
+            rep.inst(f.nloc(lp), "%s: %s-boundary search over %s%s, %s%s" % (f.qn, side, "[" if closed else "(", ga, gb, "]" if closed else ")"))
+            rep.ob()
+            rep.ob()
+            if side == "?":
+                rep.notes.append("%s: boundary loop at %s touches the pivot at neither end (%s): coverage undecided" % (f.qn, f.nloc(lp), bad[1]))
+            elif bad is not None:
+                what, got, descr = bad
+                rep.viol("%s#%s-%s" % (f.qn, side, what.split()[-2] if what.startswith("excl") else what.split()[0]), f.nloc(lp),
+                         "%s: the %s of the %s-boundary search starts at %s, not at %s: elements between the two are never examined, so the reported "
+                         "range loses members at that end" % (f.qn, what, side, got, descr), f.qn)
+            closed_s = closed
             for n in walk(lp["body"]):
                 if is_assignment(n) and n.get("op") == "=":
                     p = access_path(f, n["lhs"])
@@ -416,6 +431,6 @@ def r_bisect(db, rep):
                         rep.ob()
                         got = canon(sb.sym(n["rhs"]))
                         if got != steps[p]:
-                            rep.viol("%s#%s-step-%s" % (f.qn, "left" if closed else "right", fmt_path(f, p)), f.nloc(n),
+                            rep.viol("%s#%s-step-%s" % (f.qn, side, fmt_path(f, p)), f.nloc(n),
                                      "%s: the %s-boundary search moves %s to %s instead of %s: on a %s interval that either skips an element or never "
-                                     "terminates" % (f.qn, "left" if closed else "right", fmt_path(f, p), got, steps[p], "closed" if closed else "half-open"), f.qn)
+                                     "terminates" % (f.qn, side, fmt_path(f, p), got, steps[p], "closed" if closed else "half-open"), f.qn)
